@@ -18,8 +18,13 @@ THEOREMS = ["C17.init_inv", "C17.greedy_step", "C17.step_inv", "C17.spanning", "
             "RefineMst.maArgmin_eq", "RefineMst.for1_step", "RefineMst.mst_loop_refines", "RefineMst.mst_loop_raises",
             "C17.generated_mst_eq_model", "C17.generated_mst_raises", "C17.generated_spanning", "C17.generated_branching_limit",
             "C17.generated_greedy_step", "C17.generated_prim_minimal", "C17.generated_prim_attains"]
-TRUSTED = ["hand-written model Model/Mst.lean of the greedy loop (tied by the c17.mst correspondence: the parent array compared exactly; the model is fed "
-           "the distance matrix the code computes in the dtype of the cloud (float64 or float32), as exact rationals)"]
+TRUSTED = ["hand-written model Model/Mst.lean of the greedy loop: PROVED equal (RefineMst.mst_loop_refines, every n > 0, every n × n matrix, every option) to "
+           "Gen.Algo.mst_loop, the definition the imperative translator regenerates on every run from PointsToCuntzMST.__call__ (pid = np.full … end of the "
+           "for loop); trusted there: the translator and Model/Py.lean (float arrays as arrays over a numeric type, run at Rat; 2-d arrays as lists of rows; "
+           "numpy.ma argmin = first least unmasked cell in row-major order, (0, 0) when all are masked), the three `subst` entries self.bf / self.furcations / "
+           "self.exclude_soma = parameters, and that `n`, `dis` (computed before the segment) are the point count and its n × n distance matrix",
+           "both the model (`mst`) and the generated loop (`gmst`) are run against the real function on the distance matrix the code computes in the dtype of "
+           "the cloud (float64 or float32), as exact rationals: the parent array compared exactly"]
 ASSUMPTIONS = ["prim_minimal assumes a symmetric, non-negative matrix: |p_i - p_j| computed by np.linalg.norm is both (IEEE negation is exact)",
                "rounding of the distance matrix in the dtype of the input cloud (float64 or float32) and of `dis + bf*acc`: clouds whose best and second-best cost are "
                "relatively closer than max(1e-9, 64 eps(dtype)) are rejected; the MST weight is compared relatively, max(1e-7, 64 eps(dtype)), at every length scale",
@@ -296,7 +301,45 @@ class MstSuite(Suite):
         return len(case["points"]) >= 4
 
 
-SUITES = [MstSuite()]
+class GenLoopSuite(Suite):
+    """The loop GENERATED from the source (`gmst`) against the real function where the property text is silent but the refinement theorem
+    is not: limits 0 and below -1 (`RefineMst.limitOf`: a point closes at its first child; once every cell is masked numpy's `argmin`
+    returns cell (0, 0)), one and two points, no final sort (the parents as the loop leaves them).  No oracle: these are the code's
+    quirks, compared exactly on small integer clouds whose costs are far from ties."""
+    name = "c17.genloop"
+
+    def cases(self, rng, tier, widen):
+        out = []
+        for n in (1, 2, 3, 4, 5, 7):
+            for k in (0, -2, 1, -1):
+                pts = cloud(rng, n, dim=rng.choice([2, 3]))
+                out.append({"class": f"genloop/n{n}/k{k}", "points": pts, "bf": rng.choice([0.0, 0.5, 1.0]), "k": k,
+                            "exclude_soma": rng.random() < 0.5})
+        return out
+
+    def run(self, case):
+        from swcgeom.transforms import PointsToCuntzMST
+
+        pts = np.array(case["points"], dtype=np.float64)
+        t = PointsToCuntzMST(bf=case["bf"], furcations=case["k"], exclude_soma=case["exclude_soma"], sort=False)(pts)
+        return {"pid": t.pid().tolist()}
+
+    def lines(self, case, res):
+        if "exc" in res:
+            return []
+        _, amb = reference(case["points"], case["bf"], -1, True, 1e-9)        # near-ties are resolved by float rounding: skip
+        if amb and len(case["points"]) > 2:
+            return []
+        P = np.array(case["points"], dtype=np.float64)
+        d = np.linalg.norm(P.reshape((-1, 1, 3)) - P.reshape((1, -1, 3)), axis=2)
+        rows = ";".join(",".join(str(Fraction(float(v))) for v in row) for row in d)
+        return [(f"gmst bf={Fraction(case['bf'])} k={case['k']} ex={int(case['exclude_soma'])} d={rows}", gen.ints(res["pid"]))]
+
+    def nontrivial(self, case, res):
+        return len(case["points"]) >= 3
+
+
+SUITES = [MstSuite(), GenLoopSuite()]
 TECHNIQUE = ("Lean 4 theorems about the model of the greedy loop (mask invariant: open cells are exactly connected-unsaturated source × unconnected target; each "
              "iteration connects one new point to an earlier one with the least edge + bf·path cost; child counts never exceed the limit; n-1 iterations give a "
              "spanning tree rooted at 0; for bf = 0 and no limit the exchange argument carried through the whole loop: the returned tree is no longer than any connected spanning edge list, and is itself one) + differential correspondence on the code's own distance matrix + independent re-simulation of the stated rule and a "
